@@ -209,7 +209,7 @@ def run_task(task, acc):
         acc.run_enum(check_case, cases)
         # ... and a detach hook that re-files the next sibling of the leaving node under another node (needs a fourth node
         # to receive it: one more node, shorter children lists)
-        n4 = task["n"] + 1
+        n4 = min(task["n"] + 1, 4)
         cases = ({"cls": task["cls"], "n": n4, "state": state, "route": "parent", "steps": [{"op": op, "plan": {"refile": [[hook, label]]}}], "assertions": task["assertions"], "reading_hooks": label % 2}
                  for state, route in mut.enum_states(n4, 0, 1) if route == "parent"
                  for op in mut.calls_for(n4, fam, invalid=False, maxlen=1 if n4 >= 4 else 2)
